@@ -65,6 +65,7 @@ def check_executions(ctx, binary, executions, tag, module, cfg, key_of, timeout=
     nviol = len(ctx.violations)
     bad = vlib.check_executions(ctx, binary, executions, tag, SPECDIR, module, cfg, key_of,
                                 driver_args=[vlib.BUILD], driver_timeout=timeout, tlc_timeout=timeout)
+    _stats(ctx, os.path.join(ctx.work, "trace_%s.ndjson" % tag))
     seen = set(k for k, _, _ in ctx.violations[:nviol])
     keep = []
     for key, path, text in ctx.violations[nviol:]:
@@ -84,6 +85,30 @@ def check_executions(ctx, binary, executions, tag, module, cfg, key_of, timeout=
     return bad
 
 
+def _stats(ctx, trace):
+    """Vacuity counters: how often every operation was observed succeeding / failing, skipped steps, shapes."""
+    import json
+    c = ctx.cov
+    try:
+        with open(trace) as f:
+            for line in f:
+                if '"op":"reset"' in line:
+                    continue
+                e = json.loads(line)
+                op = e["op"]
+                if op == "path":
+                    k = "path.simplified" if e["simp"] != e["p"] else "path.unchanged"
+                elif op == "rel":
+                    k = "rel.none" if not e["r"] else "rel.found"
+                elif op == "nop":
+                    k = "fs.nop(guarded)"
+                else:
+                    k = "fs.%s.%s" % (op, "ok" if e["r"] > 0 or (op == "seek" and e["r"] == 0) else "fail")
+                c[k] = c.get(k, 0) + 1
+    except OSError:
+        pass
+
+
 def _sweep_scratch():
     """Remove scratch trees of drivers that died (a crashed driver cannot clean up after itself)."""
     for d in glob.glob(os.path.join(vlib.BUILD, "fs.*")):
@@ -101,7 +126,7 @@ def _sweep_scratch():
 
 # ------------------------------------------------------------------------------------------------ generators
 def path_execs(ctx):
-    single = 6
+    single = 6 if ctx.quick else 7
     pair_all = 3 if ctx.quick else 4
     nrand = 3000 if ctx.quick else 40000
     ex = [["path " + hexs(s)] for s in strings(single)]
@@ -144,39 +169,50 @@ PATHS = ["a", "b", "a/a", "a/b", "b/a", "a/a/a"]
 
 def rand_fs_exec(rng, nops):
     ops = []
+    hopen = False          # a handle was (probably) opened and not closed: only then handle steps make sense
     for _ in range(nops):
         p = rng.choice(PATHS)
         q = rng.choice(PATHS)
         d = hexs([rng.choice([1, 2, 3]) for _ in range(rng.choice([0, 1, 1, 2, 3]))])
         x = rng.random()
-        if x < 0.10:
+        if hopen and x < 0.45:
+            y = rng.random()
+            if y < 0.35:
+                ops.append("write " + d)
+            elif y < 0.65:
+                ops.append("seek %d %d" % (rng.choice([0, 1, 2, 5, -1, -2]), rng.randint(0, 2)))
+            elif y < 0.88:
+                ops.append("readall")
+            else:
+                ops.append("close")
+                hopen = False
+            continue
+        x = rng.random()
+        if x < 0.12:
             ops.append("dcreate " + p)
-        elif x < 0.22:
+        elif x < 0.27:
             ops.append("put %s %d %s" % (p, rng.choice([2, 3, 6, 10, 7]), d))
-        elif x < 0.28:
+        elif x < 0.34:
             ops.append("get " + p)
-        elif x < 0.36:
+        elif x < 0.44:
             ops.append("copy %s %s %d" % (p, q, rng.randint(0, 1)))
-        elif x < 0.46:
+        elif x < 0.56:
             ops.append("rename %s %s %d" % (p, q, rng.randint(0, 1)))
-        elif x < 0.51:
+        elif x < 0.62:
             ops.append("unlink " + p)
-        elif x < 0.58:
+        elif x < 0.70:
             ops.append("dunlink %s %d" % (p, rng.randint(0, 1)))
-        elif x < 0.64:
+        elif x < 0.77:
             ops.append("symlink %s %d" % (p, rng.randint(0, 1)))
-        elif x < 0.67:
+        elif x < 0.81:
             ops.append(rng.choice(["fexists ", "dexists "]) + p)
-        elif x < 0.75:
-            ops.append("open %s %d" % (p, rng.choice([1, 2, 3, 6, 7, 10, 11, 5])))
-        elif x < 0.83:
-            ops.append("write " + d)
-        elif x < 0.90:
-            ops.append("seek %d %d" % (rng.choice([0, 1, 2, 5, -1, -2]), rng.randint(0, 2)))
-        elif x < 0.96:
-            ops.append("readall")
         else:
-            ops.append("close")
+            if rng.random() < 0.7:
+                p = rng.choice(["a", "b"])
+            if rng.random() < 0.5:
+                ops.append("put %s 2 %s" % (p, d))
+            ops.append("open %s %d" % (p, rng.choice([1, 2, 3, 3, 6, 7, 7, 10, 11, 5])))
+            hopen = True
     return ops
 
 
@@ -202,7 +238,7 @@ def run(ctx):
             ctx.notes["graph_edges_replayed_" + name] = nedges
             check_executions(ctx, binary, execs, "graph" + name, "FsTrace", "FsTrace.cfg", fs_key)
     # 3. seeded random histories (longer, all operations mixed)
-    nexec, nops = (300, 25) if ctx.quick else (4000, 40)
+    nexec, nops = (600, 25) if ctx.quick else (5000, 40)
     execs = [rand_fs_exec(ctx.rng, nops) for _ in range(nexec)]
     check_executions(ctx, binary, execs, "random", "FsTrace", "FsTrace.cfg", fs_key)
     return vlib.finish(ctx, "model_checking",
@@ -222,3 +258,29 @@ def replay(ctx, path):
     if fe:
         check_executions(ctx, binary, fe, "replayf", "FsTrace", "FsTrace.cfg", fs_key)
     return vlib.finish(ctx, "model_checking", "replay of one op sequence")
+
+
+def selftest(ctx):
+    """Binding self-test of the trace specifications: an unmodified trace is accepted, a trace with one corrupted
+    observation (simplified path, file content in the snapshot, outside tree) is rejected."""
+    binary = build()
+    cases = [(["path x612f62"], "PathTrace", '"simp":[97,47,98]', '"simp":[97,47,97]'),
+             (["dcreate a", "put a/b 2 x0102", "get a/b"], "FsTrace", '"rd":[1,2]', '"rd":[1,3]'),
+             (["dcreate a", "put a/b 2 x0102", "dunlink a 1"], "FsTrace", '"r":1,"rd":[],"tree":[]', '"r":1,"rd":[],"tree":[{"p":["a"],"t":"dir","c":[]}]'),
+             (["dcreate a", "symlink a/b 1", "dunlink a 1"], "FsTrace", '"outsame":true,"out":[]', '"outsame":false,"out":[{"p":["s"],"t":"file","c":[7,8]}]')]
+    ok = True
+    for ops, module, old, new in cases:
+        tp = os.path.join(ctx.work, "selftest.ndjson")
+        vlib.run_driver(binary, [ops], tp, args=[vlib.BUILD])
+        text = open(tp).read()
+        r, mism, done = vlib.validate_trace(SPECDIR, module, module + ".cfg", tp)
+        good = done and not mism and old in text
+        k = text.rfind(old)
+        with open(tp, "w") as f:
+            f.write(text[:k] + new + text[k + len(old):] if k >= 0 else text)
+        r, mism2, done2 = vlib.validate_trace(SPECDIR, module, module + ".cfg", tp)
+        bad = done2 and len(mism2) >= 1
+        vlib.log("selftest %-10s %-28s original accepted=%s corrupted rejected=%s" % (module, ops[-1], good, bad))
+        ok = ok and good and bad
+    _sweep_scratch()
+    return 0 if ok else 2
